@@ -141,7 +141,9 @@ func Short(c *core.Ctx, rule string, pkgs []*packages.Package) {
 			for _, f := range ft.Params.List {
 				for _, nm := range f.Names {
 					if v, ok := info.Defs[nm].(*types.Var); ok {
-						if _, isFn := v.Type().Underlying().(*types.Signature); isFn {
+						// a StateT / Future operand has a function as its underlying type but is a monadic value being run, not a
+						// handler or continuation
+						if _, isFn := v.Type().Underlying().(*types.Signature); isFn && !isMonadType(v.Type()) {
 							fparams = append(fparams, v)
 						}
 					}
@@ -360,8 +362,38 @@ func Short(c *core.Ctx, rule string, pkgs []*packages.Package) {
 								return true
 							}
 							res := ret.Results[0]
+							// locals computed from the failed operand alone (err := m.Failed().Get()) stand for it
+							fromM := map[types.Object]bool{}
+							for changed := true; changed; {
+								changed = false
+								ast.Inspect(fb.Body, func(y ast.Node) bool {
+									as, ok := y.(*ast.AssignStmt)
+									if !ok || len(as.Lhs) != len(as.Rhs) {
+										return true
+									}
+									for i, r := range as.Rhs {
+										o := objOf(info, as.Lhs[i])
+										if o == nil || fromM[o] || o == m {
+											continue
+										}
+										only := true
+										any := false
+										for v := range variablesIn(info, r) {
+											any = true
+											if v != m && !fromM[v] {
+												only = false
+											}
+										}
+										if only && any {
+											fromM[o] = true
+											changed = true
+										}
+									}
+									return true
+								})
+							}
 							for v := range variablesIn(info, res) {
-								if v != m && !sameStateVar(v) {
+								if v != m && !fromM[v] && !sameStateVar(v) {
 									bad = true
 									c.Add(rule, key+"/failure-result", ret.Pos(), core.Violated, "on the failure side the function returns `"+exprString(res)+"`, which depends on "+v.Name()+" instead of only on the failed operand "+m.Name()+": the operand's own error is not carried unchanged")
 									break
